@@ -30,14 +30,14 @@ Trace == ndJsonDeserialize(IOEnv.TRACE_FILE)
 
 VARIABLES l,        \* next event
           cfgLine,  \* index of the last event with a "cfg" field
-          errs,     \* sequence of <<line, tag>> (at most MaxErrs)
+          err,     \* sequence of <<line, tag>> (at most MaxErrs)
           donated, jailEnd, editedJ
 
-tvars == <<l, cfgLine, errs, donated, jailEnd, editedJ>>
+tvars == <<l, cfgLine, err, donated, jailEnd, editedJ>>
 MaxErrs == 8
 NoNodes == [x \in {} |-> 0]
 
-TraceInit == l = 1 /\ cfgLine = 1 /\ errs = <<>> /\ donated = 0 /\ jailEnd = NoNodes /\ editedJ = {}
+TraceInit == l = 1 /\ cfgLine = 1 /\ err = <<>> /\ donated = 0 /\ jailEnd = NoNodes /\ editedJ = {}
 
 Fields == {"bal", "supply", "nopk", "badCoins", "val", "ixStaked", "ixChain", "ixUnstaking", "ixWaiting",
            "prevPower", "prevTotal", "signing", "prevProposer", "tmSet", "missed", "rest"}
@@ -172,19 +172,19 @@ TraceNext ==
                      [] e.ev = "EndBlock"   -> EndTags(pre, c, e)
            new  == [i \in 1..Cardinality(tags) |-> <<l, SetToSeq(tags)[i]>>]
        IN /\ cfgLine' = IF "cfg" \in DOMAIN e THEN l ELSE cfgLine
-          /\ errs' = IF Len(errs) >= MaxErrs THEN errs ELSE errs \o new
+          /\ err' = IF Len(err) >= MaxErrs THEN err ELSE err \o new
           /\ donated' = DonatedNext(e)
           /\ jailEnd' = JailEndNext(e)
           /\ editedJ' = EditedNext(pre, e)
           /\ (e.ev = "reset" \/ KnownLines(pre, c, e))
 
-Tagged(tg) == \E i \in 1..Len(errs) : errs[i][2] = tg
+Tagged(tg) == \E i \in 1..Len(err) : err[i][2] = tg
 C19_NodePoolExact            == ~Tagged("C19")
 C21_IndexesAgreeWithRecords  == ~Tagged("C21")
 C22_UpdatesMatchTopStaked    == ~Tagged("C22")
 C23_EditStakeRules           == ~Tagged("C23")
 C24_UnstakeOnceWhenDue       == ~Tagged("C24")
 C25_SlashJailRules           == ~Tagged("C25")
-NoErrs == errs = <<>>
+NoErrs == err = <<>>
 TraceAccepted == TLCGet("stats").diameter = Len(Trace) + 1
 =============================================================================
